@@ -406,7 +406,26 @@ theorem pack_auto (v : Int) (e : Endian) (hv : 0 ≤ v) :
     omega
   obtain ⟨bs, h1, _, h3⟩ := enc_dec e _ false v hfit
   refine ⟨bs, ?_, ?_⟩
-  · simp only [pack, hneg]; exact h1
+  · have hlt : ¬ v < 0 := by omega
+    simp only [pack, hneg, hlt, if_false]; exact h1
+  · simp only [unpack, h3]
+
+/-- without a size a negative value gets `(~v).bit_length() + 1` bits: enough for the value and its sign -/
+theorem pack_auto_neg (v : Int) (e : Endian) (hv : v < 0) :
+    ∃ bs, pack v none e = some bs ∧ unpack bs none e true = some v := by
+  have hneg : decide (v < 0) = true := by simp; omega
+  have hfit : fits ((bitLength (v.natAbs - 1) + 1 + 7) / 8) true v = true := by
+    simp only [fits, if_true, decide_eq_true_eq]
+    have h1 := lt_two_pow_bitLength (v.natAbs - 1)
+    have h2 : 2 * 2 ^ bitLength (v.natAbs - 1) ≤ 2 ^ (8 * ((bitLength (v.natAbs - 1) + 1 + 7) / 8)) := by
+      rw [← Nat.pow_succ']
+      exact Nat.pow_le_pow_right (by decide) (by omega)
+    generalize 2 ^ (8 * ((bitLength (v.natAbs - 1) + 1 + 7) / 8)) = P at *
+    generalize 2 ^ bitLength (v.natAbs - 1) = Q at *
+    omega
+  obtain ⟨bs, h1, _, h3⟩ := enc_dec e _ true v hfit
+  refine ⟨bs, ?_, ?_⟩
+  · simp only [pack, hneg, hv, if_true]; exact h1
   · simp only [unpack, h3]
 
 theorem swap_eq (v : Int) (n : Nat) (hn : 0 < n) (h0 : 0 ≤ v) (h1 : v < 2 ^ (8 * n)) :
